@@ -121,6 +121,10 @@ class Compiler:
     ):
         self.arch: ArchEnum = arch
         self.code_format = code_format
+        # Resources registered on (and results of) this compiler instance.
+        self.compiled_insns = dict()
+        self.parsed_insns = dict()
+        self.sub_routines: dict[str:SubRoutine] = dict()
 
         self.set_lark_parser()
         self.set_extension()
